@@ -78,6 +78,8 @@ func (idx *BigIndexWriter) AddRow(values map[string]string) (uint32, error) {
 			return 0, fmt.Errorf("failed to commit: %w", err)
 		}
 
+		verifPoint("big.temp.batch")
+
 		idx.tempTx, err = idx.tempDB.Begin(true)
 		if err != nil {
 			return 0, fmt.Errorf("failed to start new transaction: %w", err)
@@ -91,6 +93,8 @@ func (idx *BigIndexWriter) Flush() error {
 	if err := idx.tempTx.Commit(); err != nil {
 		return fmt.Errorf("failed to commit: %w", err)
 	}
+
+	verifPoint("big.temp.final")
 
 	tempTx, err := idx.tempDB.Begin(false)
 	if err != nil {
@@ -198,6 +202,8 @@ func (idx *BigIndexWriter) Flush() error {
 	if err := tx.Commit(); err != nil {
 		return fmt.Errorf("failed to commit changes: %w", err)
 	}
+
+	verifPoint("big.final")
 
 	return nil
 }
